@@ -310,6 +310,9 @@ enum Stmt {
     /// bounds, the inner index expression and the value can fail; evaluation order: outer index, its bounds check, inner index, its
     /// bounds check, value
     NestedAssign(Atom, Bin, Bin),
+    /// let vK = [[a, b], [c, 7u8]][(x % 3u8) as usize][((y op z) % 3u8) as usize];  -- the array operand (outer access, index 2 is out of
+    /// bounds) is evaluated before the index expression (which can fail), then the inner bounds check
+    NestedRead(Atom, Bin),
 }
 
 fn atom_src(a: &Atom) -> String {
@@ -362,6 +365,7 @@ fn stmt_src(s: &Stmt, k: usize) -> Vec<String> {
             format!("    arr{k}[({} % 4u8) as usize] = {};", atom_src(x), atom_src(y)),
             format!("    let v{k} = arr{k}[0] ^ arr{k}[1] ^ arr{k}[2];"),
         ],
+        Stmt::NestedRead(x, j) => vec![format!("    let v{k} = [[a, b], [c, 7u8]][({} % 3u8) as usize][(({}) % 3u8) as usize];", atom_src(x), bin_src(j))],
         Stmt::NestedAssign(x, j, v) => vec![
             format!("    let mut m{k} = [[a, b], [c, 7u8]];"),
             format!("    m{k}[({} % 3u8) as usize][(({}) % 3u8) as usize] = {};", atom_src(x), bin_src(j), bin_src(v)),
@@ -471,6 +475,14 @@ fn stmt_val(s: &Stmt, env: &[u8]) -> Result<u8, (u8, usize)> {
             arr[i as usize] = atom_val(y, env);
             Ok(arr[0] ^ arr[1] ^ arr[2])
         }
+        Stmt::NestedRead(x, j) => {
+            let i = atom_val(x, env) % 3;
+            if i >= 2 { return Err((3, 0)); }
+            let jv = bin_val(j, env).map_err(|r| (r, 0))? % 3;
+            if jv >= 2 { return Err((3, 0)); }
+            let m = [[env[0], env[1]], [env[2], 7]];
+            Ok(m[i as usize][jv as usize])
+        }
         Stmt::NestedAssign(x, j, v) => {
             let i = atom_val(x, env) % 3;
             if i >= 2 { return Err((3, 1)); }
@@ -535,7 +547,8 @@ fn rand_join(rng: &mut Rng, nvars: usize) -> Stmt {
 
 fn rand_stmt(rng: &mut Rng, nvars: usize) -> Stmt {
     let ops = ["+", "-", "*", "/", "%", "<<", ">>", "+", "/"];
-    match rng.below(14) {
+    match rng.below(15) {
+        14 => Stmt::NestedRead(rand_atom(rng, nvars), rand_bin(rng, nvars)),
         13 => Stmt::NestedAssign(rand_atom(rng, nvars), rand_bin(rng, nvars), rand_bin(rng, nvars)),
         9 => rand_join(rng, nvars),
         10 => Stmt::For((0..1 + rng.below(3)).map(|_| rand_atom(rng, nvars)).collect(), ops[rng.below(9)], rand_atom(rng, nvars)),
